@@ -229,8 +229,10 @@ class Ctx:
             sub.bad(src_rule, "ANCHOR-MISSING", str(e), "the item this rule is anchored in was not found; the rule fails closed")
         n = 0
         for o in sub.obligations:
-            if keep is not None and not keep(o["key"]):
-                continue
+            failed_closed = o["status"] != "holds" and (str(o.get("detail", "")).startswith("UNSUPPORTED-FORM") or any(x in o["key"] for x in ("ANCHOR-MISSING", "INTERNAL-ERROR", "INSTANCE-COUNT")))
+            if keep is not None and not keep(o["key"]) and not failed_closed:
+                continue    # (an obligation of the sibling rule that failed closed is never filtered away: its key may differ from
+                            # the keys the filter names - C15-13 was dropped this way)
             o = dict(o)
             o["key"] = re.sub(r"^C\d\d\.R\w+", rule, o["key"])
             o["rule"] = rule
